@@ -86,6 +86,21 @@ CLAIMED = {
         text="Structural clauses only: every operator of packaging's Specifier._operators is handled; none of ~5000 valid text shapes (epochs, all pre/post/dev spellings/separators/case, 1-4 segments, wildcards, ~=) makes the parser's own arithmetic raise; valid sets / `||` / `<empty>` parse; texts rejected by the modelled grammar raise dep_logic's InvalidSpecifier and nothing else; from_specifierset is total on non-=== sets. Equality of the accepted language with packaging's regexes is not decided.",
         note="trusts: PEP 440 grammar in vsa/pkgspec.py and vsa/pkgmodel.py in place of packaging's regexes",
         ref="DESIGN.md §4 C17", thorough=False),
+    "C03": dict(
+        technique="static analysis: operator tables extracted from the AST vs the PEP 508 vocabulary; bounded abstract interpretation of parse_marker/_build_markers/evaluate from source on texts generated from a PEP 508 grammar, against an independent grammar + semantics",
+        text="Table and glue clauses + bounded behaviour: _operators / _op_map / invert_map / _op_reflect_map agree with PEP 508 (canonical comparison, complement, converse); for ~2000 generated marker texts (atoms in both operand orders, and/or/parentheses, precedence-sensitive forms) the interpreted parse_marker denotes the PEP 508 meaning on the environment grid and evaluate() agrees, incl. context defaults, PEP 685 normalisation and set-valued extras/dependency_groups. Reference = PEP 508 semantics (own grammar + PEP 440 model), NOT packaging's code; three known findings (literal-on-the-left atoms with operators lacking a converse).",
+        note="trusts: vsa/markdomain.py grammar/semantics and vsa/pkgmodel.py in place of packaging",
+        ref="DESIGN.md §4 C03", thorough=True),
+    "C10": dict(
+        technique="static analysis: def-use / escape analysis over the AST of every memoised function (cache key = arguments' __eq__/__hash__) and of every attribute-store site",
+        text="All histories, by construction: inventory of every lru_cache/cache/cached_property; a memoised function with marker parameters must not return/embed or read state the key ignores (fields outside __eq__/__hash__); no attribute store on instances outside constructors and the lazy-cache idiom; string-keyed caches read only their argument. Five known findings (cnf/dnf/_merge_single_markers return their argument while MarkerExpression.reversed is outside the key). Whether a given history shows a difference is a run and is not decided.",
+        note="trusts: functools.lru_cache keys by __hash__/__eq__",
+        ref="DESIGN.md §4 C10", thorough=False),
+    "C13": dict(
+        technique="static analysis: class-table rules (dataclass eq/hash field sets, hand-written __eq__/__hash__), def-use classification of compare=False fields, abstract interpretation of == and a structural hash model over the specifier operand domain and the explored marker universe",
+        text="Class-table complete + bounded ABSINT: every dataclass compares and hashes the same fields; on all operand pairs over K tokens (both universal spellings) == is reflexive, symmetric, transitive and equal objects have equal hashes (hash formulas modelled structurally); equal markers of the explored universe (incl. reversed-spelling and cache-carrying twins) denote the same environments; every compare=False field is a cache or presentation hint. One known finding (MarkerExpression.reversed is semantic for in/not in/~=/===).",
+        note="trusts: structural hash model (equal only if same formula on equal parts)",
+        ref="DESIGN.md §4 C13", thorough=True),
 }
 
 NOT_APPLICABLE = {
